@@ -2643,9 +2643,12 @@ func (sc *serverConn) sendWindowUpdate(st *stream, n int) {
 	if send == 0 {
 		return
 	}
+	// WINDOW_UPDATE is not subject to flow control (RFC 7540, section 5.2.1).
+	// Queue it as a control frame: on the stream's own queue it would wait
+	// behind response DATA that the peer's send window blocks, and the credit
+	// for request bytes the handler already consumed would never be returned.
 	sc.writeFrame(FrameWriteRequest{
-		write:  writeWindowUpdate{streamID: streamID, n: uint32(send)},
-		stream: st,
+		write: writeWindowUpdate{streamID: streamID, n: uint32(send)},
 	})
 }
 
